@@ -23,6 +23,8 @@ CLAIMED = {
     "C16": ("§5 C16", "SSA symbolic execution + SMT: AddOffset/AddOffset64 with symbolic signed offsets (pointwise shifted membership + cardinality), static Flip vs description and vs in-place Flip, ToDense/WriteDenseTo/DenseSize bitwise, FromDense for word-slice lengths around 1024 with write-protected caller words when not copied"),
     "C17": ("§5 C17", "SSA symbolic execution + SMT on package roaring64 over the REAL 32-bit layer: set algebra (static/in-place/self), point/bulk/range mutation across 2^32 boundaries, queries, iterators, aggregates (ParOr under one schedule) against a plain-set model of uint64 with free probes; value-semantics step after each algebra op"),
     "C18": ("§5 C18", "SSA symbolic execution + SMT: 64-bit WriteTo/ToBytes/MarshalBinary -> ReadFrom/FromUnsafeBytes/UnmarshalBinary round trips with byte accounting, every proper prefix, fully symbolic byte strings and corrupted bucket count / key / inner header (panic, out-of-buffer and oversized-allocation sites are obligations)"),
+    "C19": ("§5 C19", "SSA symbolic execution + SMT on both BSI implementations (real math/big, real goroutine fan-out under one schedule): an index built by symbolic SetValue calls, one update step (SetValue/SetBigValue/SetMany/ClearValues/Retain/Clone/Marshal/WriteTo/Increment/ParOr/Add), compared with an association-list model on every column"),
+    "C20": ("§5 C20", "SSA symbolic execution + SMT on both BSI implementations: CompareValue/CompareBigValue (all operators), CompareBSI, BatchEqual/BatchEqualValues, MinMax(Big), Sum(BigValues), Transpose/IntersectAndTranspose/TransposeWithCounts with symbolic in-range constants, found-sets and parallelism 0..2 against the predicate over the model; results mutated and re-queried"),
     "C09": ("§5 C09", "SSA symbolic execution + SMT: invariant-only mode of the C01/C02 harness families from states satisfying the full invariant; wf(result) and the real Validate()==nil asserted after every operation"),
     "C10": ("§5 C10", "SSA symbolic execution + SMT: every decoder on FULLY symbolic byte strings of every length up to the bound (every Go panic / out-of-buffer access / oversized allocation is a proof obligation; attacker-sized buffers are modelled lazily), every proper prefix of valid streams, V=>I on unconstrained representations, MustReadFrom vs ReadFrom"),
     "C11": ("§5 C11", "SSA symbolic execution + SMT: the eight aggregates on lists of symbolic bitmaps (empty, singleton, duplicate objects, empty members; keys over the whole key space incl. 0xFFFF) against the pointwise fold; Par* with worker counts 0..3 under one deterministic goroutine schedule"),
